@@ -19,12 +19,12 @@ extern asn_TYPE_operation_t asn_OP_UTCTime;
 asn_struct_print_f UTCTime_print;
 asn_struct_compare_f UTCTime_compare;
 asn_constr_check_f UTCTime_constraint;
+der_type_encoder_f UTCTime_encode_der;
 xer_type_encoder_f UTCTime_encode_xer;
 asn_random_fill_f  UTCTime_random_fill;
 
 #define UTCTime_free         OCTET_STRING_free
 #define UTCTime_decode_ber   OCTET_STRING_decode_ber
-#define UTCTime_encode_der   OCTET_STRING_encode_der
 #define UTCTime_decode_xer   OCTET_STRING_decode_xer_utf8
 #define UTCTime_decode_uper  OCTET_STRING_decode_uper
 #define UTCTime_encode_uper  OCTET_STRING_encode_uper
